@@ -152,7 +152,7 @@ cdef class LegacyRecordBatch:
         PyObject_GetBuffer(uncompressed, &self._buffer, PyBUF_SIMPLE)
         return 0
 
-    cdef int64_t _read_last_offset(self) except -1:
+    cdef int64_t _read_last_offset(self) except? -1:
         cdef:
             Py_ssize_t buffer_len = self._buffer.len
             Py_ssize_t pos = 0
